@@ -215,3 +215,748 @@ Proof.
       destruct (IH v' eq_refl) as [b [-> Hb]]. inversion H; subst.
       unfold expand in Hb. rewrite Hb. eexists. split; reflexivity.
 Qed.
+
+(** ** one unfolding step of [resolve] on a string *)
+Lemma resolve_str_single f o s k :
+  single s = Some k ->
+  resolve (S f) o (JStr s) =
+    match lookup k (JObj o) with
+    | Found v' => resolve f o v' | Absent => RMissing k | TypeErr => RTypeErr
+    end.
+Proof.
+  intros H. destruct (single_inv _ _ H) as [t [-> Ht]].
+  destruct t; try discriminate; cbn in Ht; inversion Ht; subst; reflexivity.
+Qed.
+
+Lemma resolve_str_multi f o s :
+  single s = None ->
+  resolve (S f) o (JStr s) =
+    if has_templ s then match subst o s with ROk v' => resolve f o v' | e => e end
+    else ROk (JStr (unescape s)).
+Proof.
+  intros H. destruct s as [|t [|t' s']]; [reflexivity| |destruct t; reflexivity].
+  destruct t; try discriminate; reflexivity.
+Qed.
+
+Lemma resolve_plain f o s : has_templ s = false -> resolve (S f) o (JStr s) = ROk (JStr (unescape s)).
+Proof. intros H. rewrite resolve_str_multi by now apply plain_not_single. now rewrite H. Qed.
+
+(** ** string forms of non-string values are literal text, and such values resolve to themselves *)
+Lemma some_inj {A} (a b : A) : Some a = Some b -> a = b.
+Proof. intros E. now inversion E. Qed.
+
+Lemma scalar_str_lit v r : scalar_str v = Some r -> exists cs, r = lit cs.
+Proof.
+  pose proof (@some_inj str) as inj.
+  destruct v as [|b|z| | | |]; try discriminate; cbn [scalar_str].
+  - intros H. apply inj in H. subst r. eexists. reflexivity.
+  - destruct b; intros H; apply inj in H; subst r; eexists; reflexivity.
+  - destruct z; intros H; apply inj in H; subst r; eexists; reflexivity.
+Qed.
+
+Lemma scalar_str_resolve f o v r : scalar_str v = Some r -> resolve (S f) o v = ROk v.
+Proof. destruct v; try discriminate; reflexivity. Qed.
+
+Lemma list_str_lit l : forall r, list_str l = Some r -> exists cs, r = lit cs.
+Proof.
+  induction l as [|v l IH]; intros r H.
+  - inversion H. exists []. reflexivity.
+  - destruct l as [|v' l'].
+    + cbn [list_str] in H. now apply scalar_str_lit in H.
+    + change (list_str (v :: v' :: l')) with
+        (match scalar_str v, list_str (v' :: l') with
+         | Some a, Some b => Some (a ++ lit [44; 32]%N ++ b) | _, _ => None end) in H.
+      destruct (scalar_str v) as [a|] eqn:Ea; [|discriminate].
+      destruct (list_str (v' :: l')) as [b|] eqn:Eb; [|discriminate].
+      apply scalar_str_lit in Ea as [ca ->]. destruct (IH b eq_refl) as [cb ->].
+      apply some_inj in H. subst r. rewrite !lit_app. eexists. reflexivity.
+Qed.
+
+Lemma resolve_list_cons f o v l :
+  resolve (S f) o (JList (v :: l)) =
+    match resolve (S f) o v with
+    | ROk v' => match resolve (S f) o (JList l) with ROk (JList r) => ROk (JList (v' :: r)) | e => e end
+    | e => e
+    end.
+Proof. reflexivity. Qed.
+
+Lemma list_str_resolve f o l : forall r, list_str l = Some r -> resolve (S f) o (JList l) = ROk (JList l).
+Proof.
+  induction l as [|v l IH]; intros r H; [reflexivity|].
+  rewrite resolve_list_cons. destruct l as [|v' l'].
+  - cbn [list_str] in H. rewrite (scalar_str_resolve f o v r H). reflexivity.
+  - change (list_str (v :: v' :: l')) with
+      (match scalar_str v, list_str (v' :: l') with
+       | Some a, Some b => Some (a ++ lit [44; 32]%N ++ b) | _, _ => None end) in H.
+    destruct (scalar_str v) as [a|] eqn:Ea; [|discriminate].
+    destruct (list_str (v' :: l')) as [b|] eqn:Eb; [|discriminate].
+    rewrite (scalar_str_resolve f o v a Ea), (IH b eq_refl). reflexivity.
+Qed.
+
+Lemma to_str_nonstr f o v sv :
+  (forall s, v <> JStr s) -> to_str v = Some sv ->
+  (exists cs, sv = lit cs) /\ resolve (S f) o v = ROk v.
+Proof.
+  intros Hn H. destruct v as [|b|z|i|s|l|m].
+  - split; [now apply (scalar_str_lit JNull)|reflexivity].
+  - split; [now apply (scalar_str_lit (JBool b))|reflexivity].
+  - split; [now apply (scalar_str_lit (JInt z))|reflexivity].
+  - discriminate.
+  - exfalso. now apply (Hn s).
+  - cbn [to_str] in H. destruct (list_str l) as [r|] eqn:E; [|discriminate].
+    split; [|now apply (list_str_resolve f o l r)].
+    destruct (list_str_lit l r E) as [cs ->]. apply some_inj in H. subst sv.
+    rewrite !lit_app. eexists. reflexivity.
+  - discriminate.
+Qed.
+
+(** ** the transitive specification against the iterate-and-rescan resolver *)
+
+(** one round of the code (substitute the raw string forms, rescan) lowers the depth by one *)
+Lemma flatten_round d o s : forall e,
+  flatten (S d) o s = Some e -> exists s1, expand o s = Some s1 /\ flatten d o s1 = Some e.
+Proof.
+  induction s as [|t s IH]; intros e H.
+  - inversion H. exists []. split; [reflexivity|]. now apply flatten_plain.
+  - cbn [flatten cat_map] in H.
+    destruct (deep_piece (flatten d o) o t) as [a|] eqn:Ea; [|discriminate].
+    destruct (cat_map (deep_piece (flatten d o) o) s) as [b|] eqn:Eb; [|discriminate].
+    apply some_inj in H. subst e.
+    destruct (IH b Eb) as [s1 [Hs1 Hb]].
+    unfold expand. cbn [cat_map]. unfold expand in Hs1. rewrite Hs1.
+    unfold deep_piece in Ea. unfold piece.
+    destruct (tok_key t) as [k|] eqn:Ek.
+    + destruct (lookup k (JObj o)) as [v| |]; try discriminate.
+      destruct (to_str v) as [sv|]; [|discriminate].
+      exists (sv ++ s1). split; [reflexivity|]. now rewrite flatten_app, Ea, Hb.
+    + apply some_inj in Ea. subst a. exists ([t] ++ s1). split; [reflexivity|].
+      rewrite flatten_app, Hb, flatten_plain; [reflexivity|].
+      unfold has_templ. cbn. rewrite tok_key_templ, Ek. reflexivity.
+Qed.
+
+(** the full expansion contains no unresolved reference *)
+Lemma flatten_is_plain d o : forall s e, flatten d o s = Some e -> has_templ e = false.
+Proof.
+  induction d as [|d IH]; intros s e H.
+  - cbn [flatten] in H. destruct (has_templ s) eqn:E; [discriminate|]. apply some_inj in H. now subst.
+  - revert e H. induction s as [|t s IHs]; intros e H.
+    + apply some_inj in H. now subst.
+    + cbn [flatten cat_map] in H.
+      destruct (deep_piece (flatten d o) o t) as [a|] eqn:Ea; [|discriminate].
+      destruct (cat_map (deep_piece (flatten d o) o) s) as [b|] eqn:Eb; [|discriminate].
+      apply some_inj in H. subst e. rewrite has_templ_app, (IHs b Eb), orb_false_r.
+      unfold deep_piece in Ea. destruct (tok_key t) as [k|] eqn:Ek.
+      * destruct (lookup k (JObj o)) as [v| |]; try discriminate.
+        destruct (to_str v) as [sv|]; [|discriminate]. exact (IH sv a Ea).
+      * apply some_inj in Ea. subst a. unfold has_templ. cbn. rewrite tok_key_templ, Ek. reflexivity.
+Qed.
+
+(** MAIN: whenever the independent transitive expansion (depth d) is defined, [resolve] with any
+    budget above d succeeds with a value whose string form is that expansion, escapes removed *)
+Theorem flatten_resolve d o : forall s e,
+  flatten d o s = Some e ->
+  forall f, f > d -> exists r, resolve f o (JStr s) = ROk r /\ to_str r = Some (unescape e).
+Proof.
+  induction d as [|d IH]; intros s e H f Hf.
+  - cbn [flatten] in H. destruct (has_templ s) eqn:E; [discriminate|]. apply some_inj in H. subst e.
+    destruct f as [|f]; [lia|]. rewrite resolve_plain by exact E. eexists. split; reflexivity.
+  - destruct f as [|f]; [lia|]. assert (Hf' : f > d) by lia.
+    destruct (single s) as [k|] eqn:Es.
+    + rewrite (resolve_str_single f o s k Es).
+      destruct (single_inv _ _ Es) as [t [-> Ht]].
+      cbn [flatten cat_map] in H. unfold deep_piece in H. rewrite Ht in H.
+      destruct (lookup k (JObj o)) as [v| |]; try discriminate.
+      destruct (to_str v) as [sv|] eqn:Ev; [|discriminate].
+      destruct (flatten d o sv) as [a|] eqn:Ea; [|discriminate].
+      apply some_inj in H. rewrite app_nil_r in H. subst e.
+      destruct v as [| | | |s'| |].
+      5: { cbn [to_str] in Ev. apply some_inj in Ev. subst sv. exact (IH s' a Ea f Hf'). }
+      all: destruct f as [|f]; [lia|];
+        match type of Ev with to_str ?v = _ =>
+          destruct (to_str_nonstr f o v sv ltac:(intros s0 E0; discriminate E0) Ev) as [[cs ->] Hr] end;
+        rewrite flatten_plain in Ea by apply has_templ_lit; apply some_inj in Ea; subst a;
+        eexists; (split; [exact Hr|]); rewrite unescape_lit; exact Ev.
+    + rewrite (resolve_str_multi f o s Es). destruct (has_templ s) eqn:Et.
+      * destruct (flatten_round d o s e H) as [s1 [Hs1 He]].
+        rewrite (expand_subst o s s1 Hs1). exact (IH s1 e He f Hf').
+      * rewrite flatten_plain in H by exact Et. apply some_inj in H. subst e.
+        eexists. split; reflexivity.
+Qed.
+
+(** ** the one-level specification (every referenced value is atomic) *)
+Lemma closed_expand_plain o s : forall e,
+  closed o s = true -> expand o s = Some e -> has_templ e = false.
+Proof.
+  induction s as [|t s IH]; intros e Hc H.
+  - apply some_inj in H. now subst.
+  - unfold expand in H. cbn [cat_map] in H. cbn [closed forallb] in Hc.
+    apply andb_prop in Hc as [Ht Hc].
+    destruct (piece o t) as [a|] eqn:Ea; [|discriminate].
+    destruct (cat_map (piece o) s) as [b|] eqn:Eb; [|discriminate].
+    apply some_inj in H. subst e. rewrite has_templ_app, (IH b Hc Eb), orb_false_r.
+    unfold piece in Ea. destruct (tok_key t) as [k|] eqn:Ek.
+    + destruct (lookup k (JObj o)) as [v| |]; try discriminate.
+      destruct v as [| | | |s'| |]; try discriminate.
+      4: { cbn in Ea. apply some_inj in Ea. subst a. now apply negb_true_iff in Ht. }
+      all: match type of Ea with to_str ?v = _ =>
+             destruct (to_str_nonstr 0 o v a ltac:(intros s0 E0; discriminate E0) Ea) as [[cs ->] _] end;
+           apply has_templ_lit.
+    + apply some_inj in Ea. subst a. unfold has_templ. cbn. rewrite tok_key_templ, Ek. reflexivity.
+Qed.
+
+Theorem resolve_one_level_multi o s e n :
+  closed o s = true -> single s = None -> expand o s = Some e ->
+  resolve (S (S n)) o (JStr s) = ROk (JStr (unescape e)).
+Proof.
+  intros Hc Hs He. rewrite resolve_str_multi by exact Hs. destruct (has_templ s) eqn:Et.
+  - rewrite (expand_subst o s e He). apply resolve_plain. exact (closed_expand_plain o s e Hc He).
+  - rewrite expand_plain in He by exact Et. apply some_inj in He. now subst.
+Qed.
+
+Theorem resolve_one_level_single o s k n :
+  closed o s = true -> single s = Some k ->
+  exists v, lookup k (JObj o) = Found v /\ resolve (S (S n)) o (JStr s) = ROk (final v).
+Proof.
+  intros Hc Hs. rewrite (resolve_str_single _ o s k Hs).
+  destruct (single_inv _ _ Hs) as [t [-> Ht]]. cbn [closed forallb] in Hc. rewrite Ht in Hc.
+  destruct (lookup k (JObj o)) as [v| |]; try discriminate. exists v. split; [reflexivity|].
+  rewrite andb_true_r in Hc. destruct v as [| | | |s'| |]; try discriminate; try reflexivity.
+  apply resolve_plain. now apply negb_true_iff in Hc.
+Qed.
+
+(** ** a missing reference is reported by name *)
+Definition lres_found (r : lres) : bool := match r with Found _ => true | _ => false end.
+
+Lemma subst_missing o a t k b ea :
+  expand o a = Some ea -> tok_key t = Some k -> lookup k (JObj o) = Absent ->
+  subst o (a ++ t :: b) = RMissing k.
+Proof.
+  revert ea. induction a as [|t' a IH]; intros ea Ha Ht Hl.
+  - cbn [app subst]. destruct t; try discriminate; cbn in Ht; inversion Ht; subst; now rewrite Hl.
+  - unfold expand in Ha. cbn [cat_map] in Ha.
+    destruct (piece o t') as [p|] eqn:Ep; [|discriminate].
+    destruct (cat_map (piece o) a) as [ea'|] eqn:Ea; [|discriminate].
+    specialize (IH ea' Ea Ht Hl). cbn [app subst]. unfold piece in Ep.
+    destruct t' as [c|k'|p'| |]; cbn [tok_key] in Ep; rewrite IH; try reflexivity.
+    + destruct (lookup k' (JObj o)) as [v| |]; try discriminate. now rewrite Ep.
+    + destruct (lookup (par_key p') (JObj o)) as [v| |]; try discriminate. now rewrite Ep.
+Qed.
+
+(** [misses o n s k]: resolving [s] meets the absent key [k] — at the top level of the string
+    (every reference to its left being substitutable), behind a single reference, or in the
+    string obtained after a substitution round — within [n] rounds. *)
+Inductive misses (o : dict) : nat -> str -> key -> Prop :=
+| M_here n a t b k ea :
+    expand o a = Some ea -> tok_key t = Some k -> lookup k (JObj o) = Absent ->
+    misses o n (a ++ t :: b) k
+| M_single n s k0 s' k :
+    single s = Some k0 -> lookup k0 (JObj o) = Found (JStr s') -> misses o n s' k ->
+    misses o (S n) s k
+| M_round n s s1 k :
+    single s = None -> has_templ s = true -> expand o s = Some s1 -> misses o n s1 k ->
+    misses o (S n) s k.
+
+Theorem misses_resolve o n s k :
+  misses o n s k -> forall f, f > n -> resolve f o (JStr s) = RMissing k.
+Proof.
+  induction 1 as [n a t b k ea Ha Ht Hl|n s k0 s' k Hs Hl _ IH|n s s1 k Hs Ht He _ IH]; intros f Hf.
+  - destruct f as [|f]; [lia|]. destruct (single (a ++ t :: b)) as [k1|] eqn:Es.
+    + rewrite (resolve_str_single f o _ k1 Es). destruct (single_inv _ _ Es) as [t1 [E1 Ht1]].
+      destruct a as [|t' [|t'' a']]; cbn [app] in E1; try discriminate.
+      inversion E1; subst. rewrite Ht in Ht1. inversion Ht1; subst. now rewrite Hl.
+    + rewrite (resolve_str_multi f o _ Es).
+      assert (has_templ (a ++ t :: b) = true) as ->.
+      { rewrite has_templ_app. unfold has_templ at 2. cbn [existsb]. rewrite tok_key_templ, Ht.
+        cbn. apply orb_true_r. }
+      now rewrite (subst_missing o a t k b ea Ha Ht Hl).
+  - destruct f as [|f]; [lia|]. rewrite (resolve_str_single f o s k0 Hs), Hl. apply IH. lia.
+  - destruct f as [|f]; [lia|]. rewrite (resolve_str_multi f o s Hs), Ht, (expand_subst o s s1 He).
+    apply IH. lia.
+Qed.
+
+(** * Part B — the keys [resolve] looks up ([resolve_reads]) *)
+
+Lemma reads_single g o s k :
+  single s = Some k ->
+  resolve_reads (S g) o (JStr s) =
+    k :: match lookup k (JObj o) with Found v' => resolve_reads g o v' | _ => [] end.
+Proof.
+  intros H. destruct (single_inv _ _ H) as [t [-> Ht]].
+  destruct t; try discriminate; cbn in Ht; inversion Ht; subst; reflexivity.
+Qed.
+
+Lemma reads_multi_raw g o s :
+  single s = None ->
+  resolve_reads (S g) o (JStr s) =
+    if has_templ s then tkeys s ++ match subst o s with ROk v' => resolve_reads g o v' | _ => [] end
+    else [].
+Proof.
+  intros H. destruct s as [|t [|t' s']]; [reflexivity| |destruct t; reflexivity].
+  destruct t; try discriminate; reflexivity.
+Qed.
+
+Lemma reads_multi g o s :
+  single s = None ->
+  resolve_reads (S g) o (JStr s) =
+    if has_templ s
+    then tkeys s ++ match expand o s with Some s1 => resolve_reads g o (JStr s1) | None => [] end
+    else [].
+Proof.
+  intros H. rewrite reads_multi_raw by exact H. destruct (has_templ s); [|reflexivity]. f_equal.
+  destruct (expand o s) as [s1|] eqn:E.
+  - now rewrite (expand_subst o s s1 E).
+  - destruct (subst o s) as [v'| | | |] eqn:Es; try reflexivity.
+    destruct (subst_expand o s v' Es) as [e [_ He]]. congruence.
+Qed.
+
+Lemma reads_plain g o s : has_templ s = false -> resolve_reads g o (JStr s) = [].
+Proof.
+  intros H. destruct g as [|g]; [reflexivity|].
+  rewrite reads_multi by now apply plain_not_single. now rewrite H.
+Qed.
+
+(** the keys a string mentions are among its reads *)
+Lemma tkeys_in_reads g o s k : In k (tkeys s) -> In k (resolve_reads (S g) o (JStr s)).
+Proof.
+  intros H. destruct (single s) as [k0|] eqn:Es.
+  - rewrite (reads_single g o s k0 Es). destruct (single_inv _ _ Es) as [t [-> Ht]].
+    apply tkeys_In in H as [t' [[<-|[]] Ht']]. left. congruence.
+  - rewrite (reads_multi g o s Es), (tkeys_has_templ s k H). apply in_or_app. now left.
+Qed.
+
+(** the string form of a value reads at most what the value reads *)
+Lemma reads_to_str g o v sv :
+  to_str v = Some sv -> incl (resolve_reads g o (JStr sv)) (resolve_reads g o v).
+Proof.
+  intros H. destruct v as [| | | |s| |].
+  5: { cbn in H. apply some_inj in H. subst sv. apply incl_refl. }
+  all: match type of H with to_str ?v = _ =>
+         destruct (to_str_nonstr 0 o v sv ltac:(intros s0 E0; discriminate E0) H) as [[cs ->] _] end;
+       rewrite reads_plain by apply has_templ_lit; intros x [].
+Qed.
+
+(** after a round, what the substituted string reads was already readable from the parts *)
+Lemma reads_after_round g o a sa k :
+  expand o a = Some sa -> In k (resolve_reads g o (JStr sa)) -> In k (resolve_reads (S g) o (JStr a)).
+Proof.
+  intros Ha Hk. destruct (single a) as [k0|] eqn:Es.
+  - rewrite (reads_single g o a k0 Es). destruct (single_inv _ _ Es) as [t [-> Ht]].
+    unfold expand in Ha. cbn [cat_map] in Ha. unfold piece in Ha. rewrite Ht in Ha.
+    destruct (lookup k0 (JObj o)) as [v| |]; try discriminate.
+    destruct (to_str v) as [sv|] eqn:Ev; [|discriminate]. apply some_inj in Ha.
+    rewrite app_nil_r in Ha. subst sa. right. exact (reads_to_str g o v sv Ev k Hk).
+  - rewrite (reads_multi g o a Es). destruct (has_templ a) eqn:Et.
+    + rewrite Ha. apply in_or_app. now right.
+    + rewrite expand_plain in Ha by exact Et. apply some_inj in Ha. subst sa.
+      now rewrite reads_plain in Hk by exact Et.
+Qed.
+
+(** reads of a concatenation are reads of a part *)
+Lemma reads_app o : forall g a b k,
+  In k (resolve_reads g o (JStr (a ++ b))) ->
+  In k (resolve_reads g o (JStr a)) \/ In k (resolve_reads g o (JStr b)).
+Proof.
+  induction g as [|g IH]; intros a b k H; [destruct H|].
+  destruct a as [|ta a']; [now right|]. destruct b as [|tb b']; [rewrite app_nil_r in H; now left|].
+  assert (Es : single ((ta :: a') ++ tb :: b') = None) by (destruct a'; reflexivity).
+  rewrite (reads_multi g o _ Es) in H. rewrite has_templ_app in H.
+  destruct (has_templ (ta :: a') || has_templ (tb :: b')) eqn:Et; [|destruct H].
+  apply in_app_or in H as [H|H].
+  - apply tkeys_In in H as [t [Ht Hk]]. apply in_app_or in Ht as [Ht|Ht].
+    + left. apply tkeys_in_reads. apply tkeys_In. now exists t.
+    + right. apply tkeys_in_reads. apply tkeys_In. now exists t.
+  - unfold expand in H. rewrite cat_map_app in H.
+    destruct (cat_map (piece o) (ta :: a')) as [sa|] eqn:Ea; [|destruct H].
+    destruct (cat_map (piece o) (tb :: b')) as [sb|] eqn:Eb; [|destruct H].
+    apply IH in H as [H|H].
+    + left. exact (reads_after_round g o _ sa k Ea H).
+    + right. exact (reads_after_round g o _ sb k Eb H).
+Qed.
+
+(** … hence every key read from a substituted string is read from one referenced value *)
+Lemma reads_expand o g : forall s s1 k,
+  expand o s = Some s1 -> In k (resolve_reads g o (JStr s1)) ->
+  exists t k1 v1, In t s /\ tok_key t = Some k1 /\ lookup k1 (JObj o) = Found v1 /\
+                  In k (resolve_reads g o v1).
+Proof.
+  induction s as [|t s IH]; intros s1 k H Hk.
+  - apply some_inj in H. subst s1. now rewrite reads_plain in Hk.
+  - unfold expand in H. cbn [cat_map] in H.
+    destruct (piece o t) as [pt|] eqn:Ep; [|discriminate].
+    destruct (cat_map (piece o) s) as [s1'|] eqn:Es; [|discriminate].
+    apply some_inj in H. subst s1. apply reads_app in Hk as [Hk|Hk].
+    + unfold piece in Ep. destruct (tok_key t) as [k1|] eqn:Ek.
+      * destruct (lookup k1 (JObj o)) as [v1| |] eqn:El; try discriminate.
+        exists t, k1, v1. repeat split; [now left|exact Ek|exact El|].
+        exact (reads_to_str g o v1 pt Ep k Hk).
+      * apply some_inj in Ep. subst pt. rewrite reads_plain in Hk; [destruct Hk|].
+        unfold has_templ. cbn. rewrite tok_key_templ, Ek. reflexivity.
+    + destruct (IH s1' k Es Hk) as (t' & k1 & v1 & Ht' & R). exists t', k1, v1. split; [now right|exact R].
+Qed.
+
+(** ** containers without templated strings read nothing *)
+Section JsonInd.
+  Variable P : json -> Prop.
+  Hypothesis Hnull : P JNull.
+  Hypothesis Hbool : forall b, P (JBool b).
+  Hypothesis Hint : forall z, P (JInt z).
+  Hypothesis Hflt : forall i, P (JFlt i).
+  Hypothesis Hstr : forall s, P (JStr s).
+  Hypothesis Hlist : forall l, Forall P l -> P (JList l).
+  Hypothesis Hobj : forall m, Forall (fun kv : seg * json => P (snd kv)) m -> P (JObj m).
+  Fixpoint json_ind' (v : json) : P v :=
+    match v with
+    | JNull => Hnull | JBool b => Hbool b | JInt z => Hint z | JFlt i => Hflt i | JStr s => Hstr s
+    | JList l =>
+        Hlist l ((fix go (l : list json) : Forall P l :=
+                    match l with
+                    | [] => Forall_nil _
+                    | x :: l' => Forall_cons x (json_ind' x) (go l')
+                    end) l)
+    | JObj m =>
+        Hobj m ((fix go (m : list (seg * json)) : Forall (fun kv => P (snd kv)) m :=
+                   match m with
+                   | [] => Forall_nil _
+                   | kv :: m' => Forall_cons kv (json_ind' (snd kv)) (go m')
+                   end) m)
+    end.
+End JsonInd.
+
+(** no templated string anywhere inside the value *)
+Fixpoint plain_json (v : json) : bool :=
+  match v with
+  | JStr s => negb (has_templ s)
+  | JList l => (fix go (l : list json) : bool :=
+                  match l with [] => true | x :: l' => plain_json x && go l' end) l
+  | JObj m => (fix go (m : dict) : bool :=
+                 match m with [] => true | (_, x) :: m' => plain_json x && go m' end) m
+  | _ => true
+  end.
+
+Lemma reads_list_cons g o x l :
+  resolve_reads (S g) o (JList (x :: l)) = resolve_reads (S g) o x ++ resolve_reads (S g) o (JList l).
+Proof. reflexivity. Qed.
+Lemma reads_obj_cons g o k x m :
+  resolve_reads (S g) o (JObj ((k, x) :: m)) = resolve_reads (S g) o x ++ resolve_reads (S g) o (JObj m).
+Proof. reflexivity. Qed.
+
+Lemma reads_plain_json o g : forall v, plain_json v = true -> resolve_reads g o v = [].
+Proof.
+  destruct g as [|g]; [reflexivity|].
+  induction v as [| | | |s|l IH|m IH] using json_ind'; intros H; try reflexivity.
+  - apply reads_plain. now apply negb_true_iff in H.
+  - induction l as [|x l IHl]; [reflexivity|]. rewrite reads_list_cons.
+    change (plain_json (JList (x :: l))) with (plain_json x && plain_json (JList l)) in H.
+    apply andb_prop in H as [Hx Hl]. inversion IH as [|? ? Px Pl]; subst.
+    now rewrite (Px Hx), (IHl Pl Hl).
+  - induction m as [|[k x] m IHm]; [reflexivity|]. rewrite reads_obj_cons.
+    change (plain_json (JObj ((k, x) :: m))) with (plain_json x && plain_json (JObj m)) in H.
+    apply andb_prop in H as [Hx Hm]. inversion IH as [|? ? Px Pm]; subst. cbn [snd] in Px.
+    now rewrite (Px Hx), (IHm Pm Hm).
+Qed.
+
+(** the D1 side condition on a list of (reported) keys: none of them holds a container with a
+    templated string inside; and the D13 side condition on the dictionary Template.evaluate
+    resolves against: no parameter value holds a templated string *)
+Definition shallow (v : json) : bool :=
+  match v with JObj _ | JList _ => plain_json v | _ => true end.
+Definition flat_at (o : dict) (ks : list key) : bool :=
+  forallb (fun k => match lookup k (JObj o) with Found v => shallow v | _ => true end) ks.
+Definition params_plain (o' : dict) (s : str) : bool :=
+  forallb (fun p => match lookup (par_key p) (JObj o') with Found v => plain_json v | _ => true end) (pars s).
+(** a key that cannot collide with a parameter slot: non-empty, first segment outside the range *)
+Definition opt_key (k : key) : bool :=
+  match k with SName n :: _ => N.ltb n par_base | SIdx _ :: _ => true | [] => false end.
+
+Lemma flat_at_incl o ks ks' : incl ks' ks -> flat_at o ks = true -> flat_at o ks' = true.
+Proof.
+  unfold flat_at. intros Hi H. apply forallb_forall. intros k Hk.
+  exact (proj1 (forallb_forall _ _) H k (Hi k Hk)).
+Qed.
+
+Lemma no_par_ref s t k :
+  existsb (fun t => match t with TPar _ => true | _ => false end) s = false ->
+  In t s -> tok_key t = Some k -> In k (refs s).
+Proof.
+  intros Hp Ht Hk. destruct t as [c|k'|p| |]; try discriminate.
+  - cbn in Hk. inversion Hk; subst. unfold refs. apply in_flat_map. exists (TRef k). split; [exact Ht|now left].
+  - exfalso. assert (E : existsb (fun t => match t with TPar _ => true | _ => false end) s = true).
+    { apply existsb_exists. exists (TPar p). split; [exact Ht|reflexivity]. }
+    congruence.
+Qed.
+
+(** * Part C — the interpreters *)
+Section Cover.
+  Variable S : Type.
+  Variable mem_find : N -> fp -> S -> option value.
+  Variable mem_store : N -> fp -> value -> S -> S.
+  Variable cfg : config.
+  Variable ucall : N -> list value -> cres.
+  Variable rfuel : nat.
+  Variable site_ok : expr -> dict -> bool.
+
+  Notation eval := (eval S mem_find mem_store cfg ucall rfuel site_ok).
+  Notation keys := (keys S mem_find mem_store cfg ucall rfuel site_ok).
+  Notation explain := (explain S mem_find mem_store cfg ucall rfuel site_ok).
+  Notation M := (M S).
+
+  Lemma unionM_ok {A} (f : A -> M (list key)) : forall l st ks st' lg,
+    unionM S f l st = (Ok ks, st', lg) ->
+    forall a, In a l -> exists s1 ks1 s2 l1, f a s1 = (Ok ks1, s2, l1) /\ incl ks1 ks.
+  Proof.
+    induction l as [|a0 l IH]; intros st ks st' lg H a Ha; [destruct Ha|].
+    rewrite unionM_cons in H.
+    apply bind_ok in H as (ks1 & s1 & l1 & l2 & Hf & H & _).
+    apply bind_ok in H as (ks2 & s2 & l3 & l4 & Hr & H & _).
+    unfold ret in H. inversion H; subst. destruct Ha as [<-|Ha].
+    - exists st, ks1, s1, l1. split; [exact Hf|]. apply incl_appl, incl_refl.
+    - destruct (IH _ _ _ _ Hr a Ha) as (sa & ksa & sb & la & Hfa & Hi).
+      exists sa, ksa, sb, la. split; [exact Hfa|]. now apply incl_appr.
+  Qed.
+
+  Lemma rd_eq k o st : rd S k o st = (Ok (lookup k (JObj o)), st, [EvRead k (lres_found (lookup k (JObj o)))]).
+  Proof. unfold rd, bind, emit, ret, lres_found. cbn. reflexivity. Qed.
+
+  (** [Option(k).keys / .explain] (the monadic [ref_keys], run under [o]) cover everything
+      [resolve] reads behind [k] under any dictionary [o'] that agrees with [o] on the reported
+      keys — provided no reported key holds a container with a templated string (D1). *)
+  Lemma ref_keys_cover o o' : forall fuel strict k st ks st' lg,
+    ref_keys S fuel strict o k st = (Ok ks, st', lg) ->
+    (forall k', In k' ks -> lookup k' (JObj o') = lookup k' (JObj o)) ->
+    flat_at o ks = true ->
+    In k ks /\ forall g v, lookup k (JObj o') = Found v -> incl (resolve_reads g o' v) ks.
+  Proof.
+    induction fuel as [|fuel IH]; intros strict k st ks st' lg H Hag Hfl; [discriminate|].
+    cbn [ref_keys] in H. apply bind_ok in H as (r & s1 & l1 & l2 & Hrd & H & _).
+    rewrite rd_eq in Hrd. inversion Hrd; subst r s1 l1. clear Hrd.
+    destruct (lookup k (JObj o)) as [v0| |] eqn:El; [| |discriminate].
+    2: { destruct strict; [discriminate|]. unfold ret in H. inversion H; subst.
+         split; [now left|]. intros g v Hv. rewrite (Hag k (or_introl eq_refl)), El in Hv. discriminate. }
+    assert (Hscal : forall ks0, ks0 = [k] -> shallow v0 = true -> (forall s, v0 <> JStr s) ->
+              In k ks0 /\ forall g v, lookup k (JObj o') = Found v -> incl (resolve_reads g o' v) ks0).
+    { intros ks0 -> Hsh Hns. split; [now left|]. intros g v Hv.
+      rewrite (Hag k) in Hv. 2:{ destruct v0; unfold ret in H; inversion H; try now left.
+                                  exfalso. now apply (Hns s). }
+      rewrite El in Hv. inversion Hv; subst v.
+      destruct v0; try (destruct g; intros x []); try (exfalso; now apply (Hns s)).
+      - rewrite reads_plain_json by exact Hsh. intros x [].
+      - rewrite reads_plain_json by exact Hsh. intros x []. }
+    assert (Hsh0 : forall ks0, ks0 = [k] -> ks = ks0 -> shallow v0 = true).
+    { intros ks0 -> ->. unfold flat_at in Hfl. cbn [forallb] in Hfl. rewrite El in Hfl.
+      now apply andb_prop in Hfl as [Hfl _]. }
+    destruct v0 as [| | | |s| |];
+      try (unfold ret in H; inversion H; subst ks; apply Hscal;
+           [reflexivity|now apply (Hsh0 [k])|intros s0 E0; discriminate E0]).
+    clear Hscal Hsh0.
+    destruct (existsb (fun t => match t with TPar _ => true | _ => false end) s) eqn:Ep; [discriminate|].
+    apply bind_ok in H as (ks0 & s2 & l3 & l4 & Hu & H & _). unfold ret in H. inversion H; subst ks. clear H.
+    assert (Hsub : forall k1, In k1 (refs s) ->
+              In k1 ks0 /\ forall g v1, lookup k1 (JObj o') = Found v1 -> incl (resolve_reads g o' v1) ks0).
+    { intros k1 Hk1. destruct (unionM_ok _ _ _ _ _ _ Hu k1 Hk1) as (sa & ks1 & sb & la & Hr & Hi).
+      destruct (IH strict k1 sa ks1 sb la Hr) as [Hin Hcov].
+      - intros k' Hk'. apply Hag. right. now apply Hi.
+      - apply (flat_at_incl o (k :: ks0)); [|exact Hfl]. intros x Hx. right. now apply Hi.
+      - split; [now apply Hi|]. intros g v1 Hv1 x Hx. apply Hi. exact (Hcov g v1 Hv1 x Hx). }
+    split; [now left|]. intros g v Hv. rewrite (Hag k (or_introl eq_refl)), El in Hv.
+    inversion Hv; subst v. clear Hv. destruct g as [|g]; [intros x []|].
+    destruct (single s) as [k1|] eqn:Es.
+    - rewrite (reads_single g o' s k1 Es). destruct (single_inv _ _ Es) as [t [-> Ht]].
+      destruct (Hsub k1 (no_par_ref [t] t k1 Ep (or_introl eq_refl) Ht)) as [Hin Hcov].
+      intros x [<-|Hx]; [now right|]. right.
+      destruct (lookup k1 (JObj o')) as [v1| |] eqn:E1; try destruct Hx. exact (Hcov g v1 eq_refl x Hx).
+    - rewrite (reads_multi g o' s Es). destruct (has_templ s); [|intros x []].
+      intros x Hx. right. apply in_app_or in Hx as [Hx|Hx].
+      + apply tkeys_In in Hx as [t [Ht Hk]]. exact (proj1 (Hsub x (no_par_ref s t x Ep Ht Hk))).
+      + destruct (expand o' s) as [s1|] eqn:Ee; [|destruct Hx].
+        destruct (reads_expand o' g s s1 x Ee Hx) as (t & k1 & v1 & Ht & Hk & Hl & Hr).
+        exact (proj2 (Hsub k1 (no_par_ref s t k1 Ep Ht Hk)) g v1 Hl x Hr).
+  Qed.
+
+  (** Option.keys / Option.explain of a present key ARE [ref_keys] (strict / not strict) *)
+  Lemma keys_option_found k dflt dom o raw st :
+    lookup k (JObj o) = Found raw ->
+    keys (EOption k dflt dom) o st = ref_keys S (Datatypes.S rfuel) true o k st.
+  Proof.
+    intros Hl.
+    change (keys (EOption k dflt dom) o st) with
+      (bind S (rd S k o) (fun r => match r with
+         | TypeErr => fail S CType false
+         | Found (JStr s) =>
+             if existsb (fun t => match t with TPar _ => true | _ => false end) s then fail S CUnmodelled false
+             else bind S (unionM S (fun k' => ref_keys S rfuel true o k') (refs s)) (fun ks => ret S (k :: ks))
+         | Found _ => ret S [k]
+         | Absent => match dflt with Some d => keys d o | None => fail S (CKey k) true end
+         end) st).
+    cbn [ref_keys]. unfold bind at 1 3. rewrite rd_eq, Hl. destruct raw; reflexivity.
+  Qed.
+
+  Lemma explain_option_found k dflt dom o raw st :
+    lookup k (JObj o) = Found raw ->
+    explain (EOption k dflt dom) o st = ref_keys S (Datatypes.S rfuel) false o k st.
+  Proof.
+    intros Hl.
+    change (explain (EOption k dflt dom) o st) with
+      (bind S (rd S k o) (fun r => match r with
+         | TypeErr => fail S CType false
+         | Found (JStr s) =>
+             if existsb (fun t => match t with TPar _ => true | _ => false end) s then fail S CUnmodelled false
+             else bind S (unionM S (fun k' => ref_keys S rfuel false o k') (refs s)) (fun ks => ret S (k :: ks))
+         | Found _ => ret S [k]
+         | Absent => match dflt with Some d => explain d o | None => ret S [k] end
+         end) st).
+    cbn [ref_keys]. unfold bind at 1 3. rewrite rd_eq, Hl. destruct raw; reflexivity.
+  Qed.
+
+  (** an absent key with a default: the keys / explanation of the default (a Template when the
+      default is a string) *)
+  Lemma keys_option_absent k d dom o st :
+    lookup k (JObj o) = Absent ->
+    keys (EOption k (Some d) dom) o st = (let '(r, s', l) := keys d o st in (r, s', EvRead k false :: l)).
+  Proof.
+    intros Hl.
+    change (keys (EOption k (Some d) dom) o st) with
+      (bind S (rd S k o) (fun r => match r with
+         | TypeErr => fail S CType false
+         | Found (JStr s) =>
+             if existsb (fun t => match t with TPar _ => true | _ => false end) s then fail S CUnmodelled false
+             else bind S (unionM S (fun k' => ref_keys S rfuel true o k') (refs s)) (fun ks => ret S (k :: ks))
+         | Found _ => ret S [k]
+         | Absent => keys d o
+         end) st).
+    unfold bind. rewrite rd_eq, Hl. cbn. destruct (keys d o st) as [[r s'] l]. reflexivity.
+  Qed.
+
+  Lemma explain_option_absent k d dom o st :
+    lookup k (JObj o) = Absent ->
+    explain (EOption k (Some d) dom) o st = (let '(r, s', l) := explain d o st in (r, s', EvRead k false :: l)).
+  Proof.
+    intros Hl.
+    change (explain (EOption k (Some d) dom) o st) with
+      (bind S (rd S k o) (fun r => match r with
+         | TypeErr => fail S CType false
+         | Found (JStr s) =>
+             if existsb (fun t => match t with TPar _ => true | _ => false end) s then fail S CUnmodelled false
+             else bind S (unionM S (fun k' => ref_keys S rfuel false o k') (refs s)) (fun ks => ret S (k :: ks))
+         | Found _ => ret S [k]
+         | Absent => explain d o
+         end) st).
+    unfold bind. rewrite rd_eq, Hl. cbn. destruct (explain d o st) as [[r s'] l]. reflexivity.
+  Qed.
+
+  Theorem option_keys_cover_reads k dflt dom o raw st ks st' lg :
+    lookup k (JObj o) = Found raw ->
+    keys (EOption k dflt dom) o st = (Ok ks, st', lg) ->
+    flat_at o ks = true ->
+    In k ks /\ forall g, incl (resolve_reads g o raw) ks.
+  Proof.
+    intros Hl H Hfl. rewrite (keys_option_found k dflt dom o raw st Hl) in H.
+    destruct (ref_keys_cover o o _ _ _ _ _ _ _ H (fun _ _ => eq_refl) Hfl) as [Hin Hcov].
+    split; [exact Hin|]. intros g. exact (Hcov g raw Hl).
+  Qed.
+
+  Theorem option_explain_cover_reads k dflt dom o raw st ks st' lg :
+    lookup k (JObj o) = Found raw ->
+    explain (EOption k dflt dom) o st = (Ok ks, st', lg) ->
+    flat_at o ks = true ->
+    In k ks /\ forall g, incl (resolve_reads g o raw) ks.
+  Proof.
+    intros Hl H Hfl. rewrite (explain_option_found k dflt dom o raw st Hl) in H.
+    destruct (ref_keys_cover o o _ _ _ _ _ _ _ H (fun _ _ => eq_refl) Hfl) as [Hin Hcov].
+    split; [exact Hin|]. intros g. exact (Hcov g raw Hl).
+  Qed.
+
+  Lemma is_par_key_par p : is_par_key (par_key p) = true.
+  Proof. unfold is_par_key, par_key. apply N.leb_le. lia. Qed.
+
+  Lemma tok_key_cases s t k :
+    In t s -> tok_key t = Some k -> In k (refs s) \/ exists p, In p (pars s) /\ k = par_key p.
+  Proof.
+    intros Ht Hk. destruct t as [c|k'|p| |]; try discriminate; cbn in Hk; inversion Hk; subst.
+    - left. unfold refs. apply in_flat_map. exists (TRef k). split; [exact Ht|now left].
+    - right. exists p. split; [|reflexivity]. unfold pars. apply in_flat_map.
+      exists (TPar p). split; [exact Ht|now left].
+  Qed.
+
+  (** the reference part of Template.keys / Template.explain covers every OPTION key that
+      resolving the template string under [o'] (= options mixed with the parameter values) reads *)
+  Lemma template_refs_cover o o' s strict st b st' lg :
+    unionM S (fun k => ref_keys S rfuel strict o k) (refs s) st = (Ok b, st', lg) ->
+    (forall k', In k' b -> lookup k' (JObj o') = lookup k' (JObj o)) ->
+    flat_at o b = true -> params_plain o' s = true ->
+    forall g k, In k (resolve_reads g o' (JStr s)) -> is_par_key k = false -> In k b.
+  Proof.
+    intros Hu Hag Hfl Hpp.
+    assert (Hsub : forall k1, In k1 (refs s) ->
+              In k1 b /\ forall g v1, lookup k1 (JObj o') = Found v1 -> incl (resolve_reads g o' v1) b).
+    { intros k1 Hk1. destruct (unionM_ok _ _ _ _ _ _ Hu k1 Hk1) as (sa & ks1 & sb & la & Hr & Hi).
+      destruct (ref_keys_cover o o' rfuel strict k1 sa ks1 sb la Hr) as [Hin Hcov].
+      - intros k' Hk'. apply Hag. now apply Hi.
+      - now apply (flat_at_incl o b).
+      - split; [now apply Hi|]. intros g v1 Hv1 x Hx. apply Hi. exact (Hcov g v1 Hv1 x Hx). }
+    assert (Hpar : forall p v1 g, In p (pars s) -> lookup (par_key p) (JObj o') = Found v1 ->
+              resolve_reads g o' v1 = []).
+    { intros p v1 g Hp Hl. apply reads_plain_json. unfold params_plain in Hpp.
+      pose proof (proj1 (forallb_forall _ _) Hpp p Hp) as Hq. cbv beta in Hq. now rewrite Hl in Hq. }
+    intros g k Hk Hnp. destruct g as [|g]; [destruct Hk|].
+    destruct (single s) as [k1|] eqn:Es.
+    - rewrite (reads_single g o' s k1 Es) in Hk. destruct (single_inv _ _ Es) as [t [E Ht]].
+      assert (Hin : In t s) by (rewrite E; now left).
+      destruct (tok_key_cases s t k1 Hin Ht) as [Hr|[p [Hp ->]]].
+      + destruct (Hsub k1 Hr) as [Hi Hcov]. destruct Hk as [<-|Hk]; [exact Hi|].
+        destruct (lookup k1 (JObj o')) as [v1| |] eqn:E1; try destruct Hk. exact (Hcov g v1 eq_refl k Hk).
+      + destruct Hk as [<-|Hk]; [rewrite is_par_key_par in Hnp; discriminate|].
+        destruct (lookup (par_key p) (JObj o')) as [v1| |] eqn:E1; try destruct Hk.
+        rewrite (Hpar p v1 g Hp E1) in Hk. destruct Hk.
+    - rewrite (reads_multi g o' s Es) in Hk. destruct (has_templ s); [|destruct Hk].
+      apply in_app_or in Hk as [Hk|Hk].
+      + apply tkeys_In in Hk as [t [Ht Hkt]].
+        destruct (tok_key_cases s t k Ht Hkt) as [Hr|[p [Hp ->]]]; [exact (proj1 (Hsub k Hr))|].
+        rewrite is_par_key_par in Hnp. discriminate.
+      + destruct (expand o' s) as [s1|] eqn:Ee; [|destruct Hk].
+        destruct (reads_expand o' g s s1 k Ee Hk) as (t & k1 & v1 & Ht & Hkt & Hl & Hr).
+        destruct (tok_key_cases s t k1 Ht Hkt) as [Hr1|[p [Hp ->]]].
+        * exact (proj2 (Hsub k1 Hr1) g v1 Hl k Hr).
+        * rewrite (Hpar p v1 g Hp Hl) in Hr. destruct Hr.
+  Qed.
+
+  Lemma forallb_app_r {A} (f : A -> bool) a b : forallb f (a ++ b) = true -> forallb f b = true.
+  Proof. rewrite forallb_app. intros H. now apply andb_prop in H as [_ H]. Qed.
+
+  Theorem template_keys_cover_reads s ps o o' st ks st' lg :
+    keys (ETemplate s ps) o st = (Ok ks, st', lg) ->
+    (forall k', In k' ks -> lookup k' (JObj o') = lookup k' (JObj o)) ->
+    flat_at o ks = true -> params_plain o' s = true ->
+    forall g k, In k (resolve_reads g o' (JStr s)) -> is_par_key k = false -> In k ks.
+  Proof.
+    intros H Hag Hfl Hpp g k Hk Hnp.
+    change (keys (ETemplate s ps) o st) with
+      (bind S (unionM S (fun pe => keys (snd pe) o) ps)
+         (fun a => bind S (unionM S (fun k => ref_keys S rfuel true o k) (refs s))
+                     (fun b => ret S (a ++ b))) st) in H.
+    apply bind_ok in H as (a & s1 & l1 & l2 & _ & H & _).
+    apply bind_ok in H as (b & s2 & l3 & l4 & Hu & H & _). unfold ret in H. inversion H; subst ks.
+    apply in_or_app. right.
+    apply (template_refs_cover o o' s true s1 b s2 l3 Hu); try assumption.
+    - intros k' Hk'. apply Hag. apply in_or_app. now right.
+    - unfold flat_at in *. now apply forallb_app_r in Hfl.
+  Qed.
+
+  Theorem template_explain_cover_reads s ps o o' st ks st' lg :
+    explain (ETemplate s ps) o st = (Ok ks, st', lg) ->
+    (forall k', In k' ks -> lookup k' (JObj o') = lookup k' (JObj o)) ->
+    flat_at o ks = true -> params_plain o' s = true ->
+    forall g k, In k (resolve_reads g o' (JStr s)) -> is_par_key k = false -> In k ks.
+  Proof.
+    intros H Hag Hfl Hpp g k Hk Hnp.
+    change (explain (ETemplate s ps) o st) with
+      (bind S (unionM S (fun pe => explain (snd pe) o) ps)
+         (fun a => bind S (unionM S (fun k => ref_keys S rfuel false o k) (refs s))
+                     (fun b => ret S (a ++ b))) st) in H.
+    apply bind_ok in H as (a & s1 & l1 & l2 & _ & H & _).
+    apply bind_ok in H as (b & s2 & l3 & l4 & Hu & H & _). unfold ret in H. inversion H; subst ks.
+    apply in_or_app. right.
+    apply (template_refs_cover o o' s false s1 b s2 l3 Hu); try assumption.
+    - intros k' Hk'. apply Hag. apply in_or_app. now right.
+    - unfold flat_at in *. now apply forallb_app_r in Hfl.
+  Qed.
+End Cover.
